@@ -29,7 +29,7 @@ REPO = Path(os.environ.get("VERIF_REPO", "/repo"))
 ALLOWED_AXIOMS = {"propext", "Classical.choice", "Quot.sound"}
 FLAG = {"GOOD": ".good", "UNKNOWN": ".unknown", "SUSPECT": ".suspect", "FAIL": ".fail", "MISSING": ".missing"}
 PYOP = {"add": ".add", "sub": ".sub", "mul": ".mul", "truediv": ".truediv", "pow": ".pow"}
-PIN_PROPS = {"C01": ["flag_codes"], "C04": ["flag_codes", "priorities", "src_qartod_compare"], "C19": ["cf_safe", "src_save"], "C20": ["fx_ops"], "C08": ["src_climatology_test"], "C07": ["config_layout"],
+PIN_PROPS = {"C01": ["flag_codes"], "C04": ["flag_codes", "priorities", "src_qartod_compare"], "C19": ["cf_safe", "src_save"], "C20": ["fx_ops"], "C08": ["src_climatology_test"], "C07": ["config_layout"], "C05": ["window_ops"],
              "C03": ["defaults_valid", "src_gross_range_test", "src_valid_range_test"], "C09": ["default_spike", "src_spike_test"],
              "C11": ["default_flat", "src_flat_line_test"], "C12": ["default_atten", "src_attenuated_signal_test"], "C14": ["default_location", "src_location_test"],
              "C10": ["src_rate_of_change_test", "src_speed_test"], "C13": ["src_density_inversion_test", "src_pressure_increasing_test"]}
@@ -190,6 +190,31 @@ def _is_num(x):
     return isinstance(x, (int, float)) and not isinstance(x, bool) and float(x) == int(x)
 
 
+def window_ops():
+    """For PandasStream, NumpyStream and XarrayStream: the comparison operator applied to `context.window.starting` and the one
+    applied to `context.window.ending` in `run` (exactly one of each per class, `<column> OP context.window.<bound>`)."""
+    out = []
+    tree = _parse("ioos_qc/streams.py")
+    names = {ast.GtE: "ge", ast.Gt: "gt", ast.LtE: "le", ast.Lt: "lt"}
+    for cls in ("PandasStream", "NumpyStream", "XarrayStream"):
+        node = next((n for n in tree.body if isinstance(n, ast.ClassDef) and n.name == cls), None)
+        run = node and next((n for n in node.body if isinstance(n, ast.FunctionDef) and n.name == "run"), None)
+        if run is None:
+            return None
+        found = {"starting": [], "ending": []}
+        for n in ast.walk(run):
+            if isinstance(n, ast.Compare) and len(n.ops) == 1 and type(n.ops[0]) in names:
+                r = ast.unparse(n.comparators[0])
+                if r in ("context.window.starting", "context.window.ending"):
+                    found[r.rsplit(".", 1)[1]].append(names[type(n.ops[0])])
+                elif "context.window" in ast.unparse(n.left):
+                    return None                       # bound on the left: not the shape read here
+        if len(found["starting"]) != 1 or len(found["ending"]) != 1:
+            return None
+        out.append([found["starting"][0], found["ending"][0]])
+    return out
+
+
 def config_layout():
     """The `if … elif … elif … else` chain of Config.__init__ (keys, order, depth threshold; every branch must build its
     ContextConfig in the form the model reads) and the default of `default_stream_key`: ([("contexts", k) | ("streams", k) | ("depth", n)], key)."""
@@ -268,7 +293,7 @@ def _src(name):
     return f
 
 
-EXTRACTORS = {**{f"src_{fn}": _src(fn) for fn in SRC_FUNCS}, "flag_codes": flag_codes, "config_layout": config_layout, "priorities": priorities, "cf_safe": cf_safe, "fx_ops": fx_ops,
+EXTRACTORS = {**{f"src_{fn}": _src(fn) for fn in SRC_FUNCS}, "flag_codes": flag_codes, "config_layout": config_layout, "window_ops": window_ops, "priorities": priorities, "cf_safe": cf_safe, "fx_ops": fx_ops,
               "defaults_valid": defaults_valid, "default_spike": default_spike, "default_flat": default_flat,
               "default_atten": default_atten, "default_location": default_location}
 
@@ -315,6 +340,11 @@ def lean_for(table: str, val) -> tuple[str, str]:
         return ("namespace IoosQc.Gen\nopen IoosQc.Np\nopen IoosQc.NpSrc (Axes setCol dotted)\n" + val + "end IoosQc.Gen\n"
                 f"theorem src_{fn}_same : @IoosQc.Gen.{fn} = @IoosQc.NpSrc.{fn} := rfl\n"
                 f"theorem src_{fn} {binders} : {stmt} := by\n  rw [src_{fn}_same]; exact {thm} {args}\n", f"src_{fn}")
+    if table == "window_ops":
+        items = ", ".join(f"(.{a}, .{b})" for a, b in val)
+        return (f"theorem src_window_ok : ([{items}] : List (Pin.Cmp × Pin.Cmp)) = [(.ge, .lt), (.ge, .lt), (.ge, .lt)] := by decide\n"
+                f"theorem src_window (w : Window) (ts : List Int) : ∀ ops ∈ ([{items}] : List (Pin.Cmp × Pin.Cmp)), Pin.maskWith ops w ts = specMask w ts :=\n"
+                "  C05_pin_window _ src_window_ok w ts\n", "src_window")
     if table == "config_layout":
         chain, dk = val
         if not (dk.isascii() and '"' not in dk and all(k == "depth" or (v.isascii() and '"' not in v) for k, v in chain)):
